@@ -184,10 +184,11 @@ impl Response {
             }
         }
 
+        // The names of transfer codings are case-insensitive.
         if headers
             .get(&HeaderType::TransferEncoding)
-            .and_then(|te| if te == "chunked" { Some(()) } else { None })
-            .is_some()
+            .map(|te| te.eq_ignore_ascii_case("chunked"))
+            .unwrap_or(false)
         {
             let mut body: Vec<u8> = Vec::new();
 
